@@ -372,6 +372,8 @@ pub enum Mutation {
     Lz4DeclaredLen(u32),
     /// replace column count / pk count with a huge value
     HugeCount { which: u8, value: i32 },
+    /// overwrite the first 4 bytes of a cell (the element count of a collection value) with this value
+    CellHead { cell: u16, value: i32, inner: bool },
 }
 
 pub fn mutation() -> BoxedStrategy<Mutation> {
@@ -385,6 +387,7 @@ pub fn mutation() -> BoxedStrategy<Mutation> {
         1 => (0u8..3, any::<u8>()).prop_map(|(which, value)| Mutation::HeaderByte { which, value }),
         1 => prop_oneof![Just(u32::MAX), Just(0x7fff_ffff), Just(0x4000_0000), Just(0), any::<u32>()].prop_map(Mutation::Lz4DeclaredLen),
         1 => (0u8..3, prop_oneof![Just(i32::MAX), Just(-1), Just(i32::MIN), Just(0x0100_0000), Just(65536)]).prop_map(|(which, value)| Mutation::HugeCount { which, value }),
+        4 => (any::<u16>(), prop_oneof![Just(i32::MAX), Just(1_000_000), Just(-1), Just(i32::MIN), Just(0x0100_0000), Just(65536), Just(3), 0i32..20], any::<bool>()).prop_map(|(cell, value, inner)| Mutation::CellHead { cell, value, inner }),
     ]
     .boxed()
 }
@@ -508,6 +511,18 @@ pub fn apply_mutation(model: &FrameModel, m: &Mutation) -> Option<Vec<u8>> {
             }
             f[9..13].copy_from_slice(&l.to_be_bytes());
             Some(f)
+        }
+        Mutation::CellHead { cell, value, inner } => {
+            // cells are Raw fields of at least 4 bytes; with `inner`, hit bytes 8..12 instead (count of a nested collection:
+            // outer count, first element length, then the inner count)
+            let cells: Vec<&Field> = fields.iter().filter(|f| f.kind == FieldKind::Raw && f.width >= if *inner { 12 } else { 4 }).collect();
+            if cells.is_empty() {
+                return None;
+            }
+            let f = cells[crate::runner::pick_idx(*cell, cells.len())];
+            let off = f.off + if *inner { 8 } else { 0 };
+            ext[off..off + 4].copy_from_slice(&value.to_be_bytes());
+            Some(reframe(&ext))
         }
         Mutation::HugeCount { which, value } => {
             // locate the first Count32 field(s): Rows: [flags, col_count, ..., rows_count]; Prepared: [flags, col_count, pk_count,...]
